@@ -1790,6 +1790,7 @@ func (dsc *dataStoreCommand) lset(keyName string, element string, count int) (ou
 	}
 
 	item.element = []byte(element)
+	dsc.setDirty()
 	output.data = rstrOK
 	return
 }
